@@ -381,6 +381,23 @@ func suiteOPL(t *testing.T, cfg cfgT) {
 			out.stat("corpus.nesting")
 		}
 	}
+	// line terminators: only "\n" ends a line in a reported position (and in the excerpt Error() prints); the same erroneous
+	// document with LF, CRLF, CR, and with U+2028 / U+2029 / U+0085 / form feed / vertical tab inside comments and
+	// between tokens must report positions inside the input
+	{
+		base := "// c1 X\n// c2\nclass U implements Namespace {}\n/* c3 X\n c3b */\nclass N0 implements Namespace {\n  related: { r0: U[] }\n  permits = {X p0: (ctx) => this.related.r0.includes(ctx.subject) && }\n}\n"
+		unterminated := "class U implements Namespace {}\n// c X\nclass N0 implements Namespace {\n  related: { \"r0: U[] }\n}\n"
+		for _, doc := range []string{base, unterminated} {
+			for _, sp := range []string{"", "\u2028", "\u2029", "\u0085", "\f", "\v", "\r", "\u2028\u2029\u2028\u2029\u2028\u2029"} {
+				for _, nl := range []string{"\n", "\r\n", "\r"} {
+					src := strings.ReplaceAll(strings.ReplaceAll(doc, "X", sp), "\n", nl)
+					out.emit("parse "+hx(src), parseObs(src))
+					out.emit("lex "+hx(src), lexObs(src))
+					out.stat("corpus.line_terminators")
+				}
+			}
+		}
+	}
 	for i := 0; i < cfg.n; i++ {
 		hr := r.fork()
 		nss := genConfig(hr, hr.chance(2, 3))
